@@ -216,6 +216,10 @@ def check(case):
                 opt2, ref2 = reference(inst2, mode, restrict_lca=restrict, canonical=(mode == "unordered"))
                 if mode == "unordered" and reference(inst2, mode, restrict_lca=restrict, canonical=False, want_set=False)[0] != opt2:
                     continue
+                if opt2 is not None and ref2 is None:
+                    # the oracle declined to list the complete optimal set (too large): nothing to compare with
+                    labels.append("history_set_too_large") if "history_set_too_large" not in labels else None
+                    continue
                 got2 = Counter(pkg.canon_output(o, labelled=mode != "plain", ordered=mode == "ordered") for o in pkg.run_algo(algo, inp, "ALL"))
                 exp2 = Counter(ref2 or ())
                 if got2 != exp2:
@@ -232,6 +236,8 @@ def check(case):
         algo = GROUPS[group][0]
         mode, restrict = MODE[algo]
         opt_c, ref_c = reference(inst, mode, restrict_lca=restrict, canonical=(mode == "unordered"))
+        if opt_c is not None and ref_c is None:
+            raise Skip("oracle_set_too_large")
         data = {k: v for k, v in case.items() if not k.startswith("_")}
         if group == "plain":
             data.pop("leaf_syntenies", None)
